@@ -1,7 +1,7 @@
 """Rules over GlobalCollector::handle_commands and friends (C01, C03, C04, C06, C08, C18)."""
 import re
 
-from .core import (Prov, bool_cond_edges, callee_is, has_origin, origin_strs, result_switches, root_local,
+from .core import (Prov, bool_cond_edges, callee_is, has_origin, inline_calls, origin_strs, result_switches, root_local,
                    sites_star)
 
 GC = "fastrace::collector::global_collector::GlobalCollector"
@@ -31,6 +31,12 @@ class Collector:
         self.facts = facts
         self.prov = Prov(facts)
         self.fn = facts.fn(HC)
+        if self.fn is not None:
+            # see through helper methods / module-level helpers extracted from handle_commands
+            keep = re.compile(r"global_collector::(postprocess_span_collection|amend_span|amend_local_span|mount_danglings|"
+                              r"send_command|force_send_command|register_receiver|reporter_ready|flush|set_reporter)$|::start$")
+            self.fn = inline_calls(facts, self.fn, lambda g: g.path.startswith("fastrace::collector::global_collector::")
+                                   and not keep.search(g.path) and " as " not in g.path)
         self.roles = {}
         adt = facts.adts.get(GC)
         if adt:
@@ -458,14 +464,18 @@ def rule_scratch_emptied(ctx, c, rule):
                   "its commands are processed twice" % (wit, field), extra="empty-" + role)
 
 
+def crate_fns(c):
+    """All fastrace bodies, with handle_commands replaced by its inlined view (and the helpers folded into it left out)."""
+    skip = set(getattr(c.fn, "inlined_paths", set())) | {HC}
+    return [c.fn] + [g for g in c.facts.fns.values() if g.crate == "fastrace" and g.path not in skip]
+
+
 def rule_map_ops(ctx, c, rule):
     """C08-R2: who grows and who shrinks the active-collector map."""
     fn = c.fn
     GROW = {"insert", "entry", "extend", "get_or_insert_with", "try_insert", "raw_entry_mut", "extend_one"}
     allops = []
-    for g in c.facts.fns.values():
-        if g.crate != "fastrace":
-            continue
+    for g in crate_fns(c):
         for b, op, role in map_ops(c, g):
             allops.append((g, b, op, role))
     grows = [(g, b, op, role) for g, b, op, role in allops if op in GROW]
@@ -497,9 +507,7 @@ def rule_map_ops(ctx, c, rule):
               extra="remove-drop")
     # span_collections grows only in the submit phase, danglings only in amend_*
     sc = []
-    for g in c.facts.fns.values():
-        if g.crate != "fastrace":
-            continue
+    for g in crate_fns(c):
         for b in g.calls_re(r"alloc::vec::Vec::<T, A>::(push|insert|extend|append)$|Extend<.*>>::extend$", cleanup=False):
             t = g.term(b)
             if "Vec<fastrace::collector::global_collector::SpanCollection>" in t["arg_tys"][0]:
